@@ -6,7 +6,11 @@ A case is an operation history on the process-wide switch:
                       | [5, i] call the i-th decorated object
                       | [6, d, u] create a decorator object and keep it: for_all_methods(inner u), pedantic(), pedantic_require_docstring(),
                         or a reference to one of the four class decorators
-                      | [7, k, t] apply the k-th kept decorator object to a FRESH target of kind t]}
+                      | [7, k, t] apply the k-th kept decorator object to a FRESH target of kind t
+                      | [8, i, w, 0, d, u] / [8, i, w, 1, k] decorate AGAIN (directly with decorator d / with the k-th kept decorator
+                        object) an object that went through a decorator earlier in the history: w = 0 the object that was GIVEN
+                        to the decorator when the i-th decorated object was made, w = 1 the i-th decorated object itself
+                      | [9, i, 0, d, u] / [9, i, 1, k] define a FRESH SUBCLASS of the i-th decorated object (a class) and decorate it]}
   v: 0 "0", 1 "1", 2 "2", 3 "", 4 "true", 5 unset.
 The worker process itself was started (and `pedantic` imported) with the variable unset / "0" / "1" (driver: run_impl env).
 
@@ -195,6 +199,22 @@ def make_cls(t):
                 return a
         return Kls
     raise ValueError(t)
+
+
+def make_sub(base):
+    class Sub(base):
+        """A subclass of a class that went through a decorator."""
+        def own(self, a: int) -> int:
+            """Identity on ints.
+
+            Args:
+                a (int): a number
+
+            Returns:
+                int: the number
+            """
+            return a
+    return Sub
 '''
 
 
@@ -284,51 +304,74 @@ def attempt(thunk):
         return ('exc', type(ex).__name__, buf.getvalue())
 
 
-def probe(entry):
-    """call the decorated object; 4 plain, 5 checked/wrapped, 6 switch failure at call time, 7 inconsistent"""
+def mode_of(d, u):
+    return {2: 'pedantic', 3: 'pedantic', 4: 'trace', 5: 'timer'}.get(d) or {0: 'journal', 1: 'pedantic', 2: 'trace', 3: 'timer'}[u]
+
+
+def probe(entry, applied):
+    """call the decorated object; 4 plain, 5 checked/wrapped, 6 switch failure at call time, 7 inconsistent.
+    `applied`: id(class) -> [(mode, journal)] of every decorator that was ever applied to that very class object (whatever
+    the switch said): the marks a checking class may show.  For a class the methods it defines ITSELF are called (`meth`);
+    for a subclass made by op 9 the inherited method must in addition behave as it does on an instance of the base class"""
     d, t, u, res = entry['d'], entry['t'], entry['u'], entry['res']
     detail = []
     if not same_snapshot(snapshot(res), entry['after']):
         return 7, ['namespace of the decorated object changed after decoration']
-    if d in (0, 1) and t == 11:
+    if entry['fam'] == 'fn' and t == 11:
         return (4 if res is entry['target'] else 7), detail
-    if d in (0, 1):
+    journals = []
+    if entry['fam'] == 'fn':
         r = [attempt(lambda: res(1)), attempt(lambda: res(a='s')), attempt(lambda: res(a=1))]
-        mode = 'pedantic'
+        modes = {'pedantic'}
         inst = None
+        meth = None
     else:
-        ctor = (lambda: res(v=1)) if t in (0, 1) else (lambda: res(1)) if t == 10 else (lambda: res())
-        c = attempt(ctor)
+        ctor = (lambda c: c(v=1)) if t in (0, 1) else (lambda c: c(1)) if t == 10 else (lambda c: c())
+        c = attempt(lambda: ctor(res))
         if c[0] != 'ret':
             return (6 if c[0] == 'key' else 7), [f'constructor with keywords: {c[:2]}']
         inst = c[1]
-        journal = entry.get('journal')
-        if journal is not None:
-            del journal[:]
-        r = [attempt(lambda: inst.m(1)), attempt(lambda: inst.m(a='s')), attempt(lambda: inst.m(a=1))]
-        if t == 0:
+        meth = entry['meth']
+        marks = applied.get(id(res), [])
+        modes = {m for m, _ in marks}
+        journals = [j for _, j in marks if j is not None]
+        for j in journals:
+            del j[:]
+        r = [attempt(lambda: getattr(inst, meth)(1)), attempt(lambda: getattr(inst, meth)(a='s')),
+             attempt(lambda: getattr(inst, meth)(a=1))]
+        if t == 0 and not entry.get('sub'):
             r.append(attempt(lambda: res(1)))           # positional constructor call (t == 1 inherits an undecorated __init__)
-        mode = {2: 'pedantic', 3: 'pedantic', 4: 'trace', 5: 'timer'}.get(d) or {0: 'journal', 1: 'pedantic', 2: 'trace', 3: 'timer'}[u]
     if any(x[0] == 'key' for x in r):
         return 6, [str([x[:2] for x in r])]
-    if mode == 'pedantic':
-        plain = r[0][:2] == ('ret', 1) and r[1][:2] == ('ret', 's') and r[2][:2] == ('ret', 1) and all(x[0] == 'ret' for x in r[3:])
-        checked = r[0][0] == 'ped' and r[1][0] == 'ped' and r[2][:2] == ('ret', 1) and all(x[0] == 'ped' for x in r[3:])
-        if inst is not None and t == 0:
-            pr = attempt(lambda: inst.p)
-            plain = plain and pr[:2] == ('ret', 1)
-            checked = checked and pr[:2] == ('ret', 1)
-    else:
-        values_ok = r[0][:2] == ('ret', 1) and r[1][:2] == ('ret', 's') and r[2][:2] == ('ret', 1)
-        if mode == 'journal':
-            marks = [entry['journal'].count('m') == 3]
-            silent = not entry['journal']
-        else:
-            word = 'Trace' if mode == 'trace' else 'Timer'
-            marks = [word in x[2] for x in r[:3]]
-            silent = all(x[2] == '' for x in r)
-        plain = values_ok and silent
-        checked = values_ok and all(marks)
+    values_ok = r[0][:2] == ('ret', 1) and r[1][:2] == ('ret', 's') and r[2][:2] == ('ret', 1) and all(x[0] == 'ret' for x in r[3:])
+    ped_pattern = r[0][0] == 'ped' and r[1][0] == 'ped' and r[2][:2] == ('ret', 1) and all(x[0] == 'ped' for x in r[3:])
+    returned = [x for x in r[:3] if x[0] == 'ret']
+    silent = all(x[2] == '' for x in r) and not any(journals)
+    evidence = []
+    if 'pedantic' in modes:
+        evidence.append(ped_pattern)
+    if 'trace' in modes:
+        evidence.append(bool(returned) and all('Trace' in x[2] for x in returned))
+    if 'timer' in modes:
+        evidence.append(bool(returned) and all('Timer' in x[2] for x in returned))
+    for j in journals:
+        evidence.append(bool(returned) and j.count(meth) >= len(returned))
+    plain = values_ok and silent
+    checked = (values_ok or (ped_pattern and 'pedantic' in modes)) and any(evidence)
+    if inst is not None and t == 0:
+        pr = attempt(lambda: inst.p)
+        plain = plain and pr[:2] == ('ret', 1)
+        checked = checked and pr[:2] == ('ret', 1)
+    if entry.get('sub') and (plain or checked):
+        # what the subclass inherits is looked up in the base class: same behaviour as on an instance of the base class
+        b = attempt(lambda: ctor(entry['base']))
+        if b[0] != 'ret':
+            return 7, [f'constructor of the base class: {b[:2]}']
+        sig = lambda x: (x[0], x[1] if x[0] == 'ret' else None, 'Trace' in x[2], 'Timer' in x[2])
+        mine = [sig(attempt(lambda: inst.m(1))), sig(attempt(lambda: inst.m(a='s'))), sig(attempt(lambda: inst.m(a=1)))]
+        base = [sig(attempt(lambda: b[1].m(1))), sig(attempt(lambda: b[1].m(a='s'))), sig(attempt(lambda: b[1].m(a=1)))]
+        if mine != base:
+            return 7, [f'inherited method behaves differently on the subclass: {mine} / on the base class: {base}']
     if plain and not checked:
         return 4, detail
     if checked and not plain:
@@ -366,6 +409,57 @@ def run_case(case, targets):
     obs = []
     details = {}
     call_reads = []
+    applied = {}
+
+    def world():
+        """every object that was handed to or returned by a decorator so far, with its namespace"""
+        seen, out = set(), []
+        for e in objs:
+            for x in (e['target'], e['res']) + ((e['base'],) if e.get('sub') else ()):
+                if id(x) not in seen:
+                    seen.add(id(x))
+                    out.append((x, snapshot(x)))
+        return out
+
+    def resolve(kind, x, u):
+        """-> (d, u, deco, journal) or None"""
+        if kind == 0:
+            if not 0 <= x <= 6:
+                return None
+            deco, journal = make_deco(x, u, direct=True)
+            return x, u, deco, journal
+        if not 0 <= x < len(decos):
+            return None
+        return decos[x]
+
+    def decorate(k, d, u, deco, journal, given, t, meth, sub=False, base=None):
+        """apply the decorator; observation 1 only if the very object came back and NOTHING changed: not its namespace, not
+        the namespace of any other object that went through a decorator, nothing printed"""
+        fam = 'fn' if d in (0, 1) else 'cls'
+        before = snapshot(given)
+        others = [(x, sn) for x, sn in world() if x is not given]
+        a = attempt(lambda: deco(given))
+        if a[0] != 'ret':
+            obs.append(3)                           # like the model: nothing is added to the list of decorated objects
+            details[str(k)] = list(a[:2])
+            return
+        res = a[1]
+        after = snapshot(res)
+        touched = [x for x, sn in others if not same_snapshot(snapshot(x), sn)]
+        identical = res is given and same_snapshot(before, after) and a[2] == '' and not touched
+        obs.append(1 if identical else 2)
+        if touched and res is given and same_snapshot(before, after):
+            details[str(k)] = ['another object was modified: ' + ', '.join(getattr(x, '__name__', '?') for x in touched)]
+        if fam == 'cls':
+            for x in ([res] if res is given else [res, given]):
+                applied.setdefault(id(x), []).append((mode_of(d, u), journal))
+        if not identical:
+            for e in objs:                          # an object that was (legitimately or not) changed in place: later probes
+                if e['res'] is res or e['res'] is given or any(e['res'] is x for x in touched):   # compare with the new namespace
+                    e['after'] = snapshot(e['res'])
+        objs.append({'d': d, 't': t, 'u': u, 'res': res, 'after': after, 'journal': journal, 'target': given, 'fam': fam,
+                     'meth': meth, 'sub': sub, 'base': base})
+
     for k, op in enumerate(case['ops']):
         code = op[0]
         if code == 0:
@@ -387,17 +481,29 @@ def run_case(case, targets):
                 d, u, deco, journal = decos[op[1]]
                 t = op[2] if len(op) > 2 else 0
             target = targets.make_fn(t) if d in (0, 1) else targets.make_cls(t)
-            before = snapshot(target)
-            a = attempt(lambda: deco(target))
-            if a[0] != 'ret':
-                obs.append(3)                       # like the model: nothing is added to the list of decorated objects
-                details[str(k)] = list(a[:2])
+            decorate(k, d, u, deco, journal, target, t, 'm')
+        elif code == 8:                             # decorate again an object that went through a decorator earlier
+            i, w, kind, x = (op + [0, 0, 0, 0])[1:5]
+            r = resolve(kind, x, op[5] if len(op) > 5 else 0) if 0 <= i < len(objs) else None
+            if r is None or ('fn' if r[0] in (0, 1) else 'cls') != objs[i]['fam']:
+                obs.append(0)
                 continue
-            res = a[1]
-            after = snapshot(res)
-            identical = res is target and same_snapshot(before, after) and a[2] == ''
-            obs.append(1 if identical else 2)
-            objs.append({'d': d, 't': t, 'u': u, 'res': res, 'after': after, 'journal': journal, 'target': target})
+            e = objs[i]
+            decorate(k, r[0], r[1], r[2], r[3], e['res'] if w else e['target'], e['t'], e['meth'], e['sub'], e['base'])
+        elif code == 9:                             # a fresh subclass of an object that went through a decorator
+            i, kind, x = (op + [0, 0, 0])[1:4]
+            r = resolve(kind, x, op[4] if len(op) > 4 else 0) if 0 <= i < len(objs) else None
+            if r is None or r[0] in (0, 1) or objs[i]['fam'] != 'cls':
+                obs.append(0)
+                continue
+            e = objs[i]
+            try:
+                sub = targets.make_sub(e['res'])
+            except Exception as ex:                 # a base class that cannot be subclassed: not generated
+                obs.append(8)
+                details[str(k)] = ['subclass could not be defined', type(ex).__name__]
+                continue
+            decorate(k, r[0], r[1], r[2], r[3], sub, e['t'], 'own', True, e['res'])
         elif code == 6:
             d, u = op[1], op[2] if len(op) > 2 else 0
             n0 = READS['n']
@@ -416,7 +522,7 @@ def run_case(case, targets):
                 obs.append(0)
             else:
                 n0 = READS['n']
-                c, det = probe(objs[i])
+                c, det = probe(objs[i], applied)
                 if READS['n'] != n0:
                     call_reads.append(k)
                 obs.append(c)
